@@ -229,7 +229,7 @@ _CMPOPS = {
     ast.Gt: operator.gt,
     ast.GtE: operator.ge,
 }
-CONCRETE = (bool, int, float, Fraction, str, type(None), tuple, list, dict, set, frozenset)
+CONCRETE = (bool, int, float, Fraction, str, bytes, type(None), tuple, list, dict, set, frozenset)
 _MATH_FUNCS = {"log2", "log10", "log", "ceil", "floor", "sqrt", "exp", "pow", "fabs", "trunc", "isqrt", "log1p"}
 
 
